@@ -65,6 +65,7 @@ class Ctx:
         self.max_requests = 2000
         self.has_out = set()
         self.internal: Optional[list] = None  # filled by harness.internal when enabled
+        self.last_reply: Dict[tuple, Any] = {}
 
     def record(self, ev: dict):
         self.trace.append(ev)
@@ -339,6 +340,7 @@ def make_controller(ctx: Ctx):
             return False
         p = ctx.pending.pop(sid)
         rep = ctx.behaviour.reply(ctx, p)
+        ctx.last_reply[(sid, p.kind)] = rep.value
         ctx.delivered.append((ctx.ncall, sid, p.kind, bool(quiescent)))
         ctx.replies.append((sid, p.kind, p.k, rep))
         p.fut.set_result(rep)
@@ -347,7 +349,7 @@ def make_controller(ctx: Ctx):
     return controller
 
 
-def execute(scn: dict, behaviour, policy, run_kw=None, world_kw=None, connect_order=None, hooks=None) -> Ctx:
+def execute(scn: dict, behaviour, policy, run_kw=None, world_kw=None, connect_order=None, hooks=None, internal_trace=False) -> Ctx:
     """One execution of the real scheduler. Returns the context (trace + outcome)."""
     global CTX
     scn = S.normalize(scn)
@@ -365,6 +367,10 @@ def execute(scn: dict, behaviour, policy, run_kw=None, world_kw=None, connect_or
             return ctx
         if hooks:
             hooks(ctx)
+        if internal_trace:
+            from . import internal
+
+            internal.attach(ctx)
         kw = dict(until=scn["until"], print_progress=False, lazy_stepping=scn["lazy"])
         kw.update(run_kw or {})
         try:
